@@ -8,6 +8,7 @@ package progs
 import (
 	"context"
 	"fmt"
+	"runtime"
 	"sync"
 	"sync/atomic"
 	"time"
@@ -467,6 +468,24 @@ var All = []Prog{
 			return "timeout"
 		}
 	}, []string{"5", "timeout"}},
+	{"spin/gosched-wait", func() string {
+		// a polite waiting loop: the waiter must not starve the thread it waits for
+		var flag atomic.Bool
+		go func() { flag.Store(true) }()
+		n := 0
+		for !flag.Load() {
+			runtime.Gosched()
+			n++
+		}
+		return "done"
+	}, []string{"done"}},
+	{"spin/busy-wait-on-an-atomic", func() string {
+		var flag atomic.Int32
+		go func() { flag.Store(1) }()
+		for flag.Load() == 0 {
+		}
+		return "done"
+	}, []string{"done"}},
 	{"pool/nil-new", func() string {
 		var p sync.Pool
 		return fmt.Sprint(p.Get())
